@@ -65,6 +65,8 @@ def replay_1d(sc):
                     details.append(f"{name}: inversion probability*intensity of state {k} = {p!r} vs cell mass {want!r}")
             if abs(tot - proc.intensity_of_jumps) > 1e-6 * max(1.0, tot):
                 details.append(f"{name}: intensity {proc.intensity_of_jumps!r} vs sum of cell masses {tot!r}")
+            if abs(tot - proc.intensity()) > 1e-6 * max(1.0, tot):
+                details.append(f"{name}: process.intensity() (rate of the Poisson clock) {proc.intensity()!r} vs sum of cell masses {tot!r}")
             if abs(q[piv]) > 0:
                 details.append(f"{name}: origin has rate {q[piv]}")
         if details:
@@ -117,6 +119,8 @@ def h_1d(ctx, nl, nr, refine=0, fa=False, fv=True, reuse=False):
         ctx.prove("C01.rate_nonneg.1d", q[k] >= 0, info=dict(info, state=k), replay=rp)
     ctx.prove("C01.origin_has_no_rate.1d", EQ(q[piv], 0), replay=rp)
     ctx.prove("C01.sum_of_rates_is_intensity.1d", EQ(lam, SymReal(total)), info=info, replay=rp)
+    # the rate of the Poisson clock the simulators use (LevyProcess.nb_jump_dt / jump times read process.intensity())
+    ctx.prove("C01.poisson_clock_rate_is_sum_of_rates.1d", EQ(proc.intensity(), SymReal(total)), info=info, replay=rp)
     # tiling, from the grid's own cell helpers
     lows, highs = {}, {}
     for k in cs:
@@ -487,7 +491,7 @@ def harnesses(tier):
     return hs
 
 
-EXPECT = ["C01.rate_is_cell_mass.1d", "C01.sum_of_rates_is_intensity.1d", "C01.cells_tile_without_gap_or_overlap.1d", "C01.state_inside_its_cell.1d",
+EXPECT = ["C01.poisson_clock_rate_is_sum_of_rates.1d", "C01.rate_is_cell_mass.1d", "C01.sum_of_rates_is_intensity.1d", "C01.cells_tile_without_gap_or_overlap.1d", "C01.state_inside_its_cell.1d",
           "C01.inversion_probability_times_intensity_is_cell_mass.1d", "C01.adapted_tree_1d.measure_times_intensity_is_cell_mass",
           "C01.rate_is_cell_mass.2d", "C01.sum_of_rates_is_intensity.2d", "C01.factory_vector.measure_times_intensity_is_cell_mass"]
 
